@@ -53,6 +53,10 @@ pub(crate) struct StaticsContext {
     // for function calls with named arguments.
     pub(crate) func_arg_details: HashMap<FuncArgDetailsKey, FuncArgDetails>,
     pub(crate) function_call_arg_order: HashMap<NodeId, Vec<Rc<Expr>>>,
+    // Default values of parameters and fields. A default value is filled in at every call that
+    // leaves the argument off, so it must not, directly or through other default values, make
+    // such a call itself.
+    pub(crate) default_arg_values: HashMap<NodeId, DefaultArgState>,
 
     pub(crate) try_operator_constraints: Vec<(TypeVar, AstNode, TypeKey, TypeVar)>,
 
@@ -116,6 +120,7 @@ impl StaticsContext {
             interface_namespaces: Default::default(),
             func_arg_details: Default::default(),
             function_call_arg_order: Default::default(),
+            default_arg_values: Default::default(),
 
             try_operator_constraints: Default::default(),
 
@@ -387,6 +392,13 @@ impl Declaration {
             Declaration::BuiltinType(builtin_type) => Some(builtin_type.to_type_key()),
         }
     }
+}
+
+#[derive(Clone, Copy, PartialEq, Eq)]
+pub(crate) enum DefaultArgState {
+    NotBeingChecked,
+    BeingChecked,
+    NeedsItself, // already reported
 }
 
 #[derive(Clone)] // TODO: don't clone this thing
